@@ -223,5 +223,46 @@ pub fn json_roundtrip_all<T: serde::Serialize + DeserializeOwned>(x: &T) -> Resu
             Err(e) => return Err(format!("from JSON ({}): {} (from_slice reads the same document)", what, e)),
         }
     }
+    // number tokens respelled: an integer field written as a float (`7` -> `7.0`, `7.5`, `-7.0`) is either refused or read
+    // as exactly the integer it denotes - never truncated, rounded or saturated into some other value
+    let toks = json_int_tokens(&text);
+    let pick: Vec<usize> = if toks.len() <= 10 { (0..toks.len()).collect() } else { let mut v: Vec<usize> = (0..4).chain(toks.len() - 4..toks.len()).collect(); v.push(toks.len() / 2); v.push(toks.len() / 3); v };
+    for ti in pick {
+        let (a, b) = toks[ti];
+        let tok = &text[a..b];
+        for (what, spelled, same_value) in [("written as a float", format!("{}.0", tok), true), ("with a fraction", format!("{}.5", tok), false), ("with a negative fraction", format!("-{}.5", tok.trim_start_matches('-')), false), ("in exponent form", format!("{}e0", tok), true), ("divided by ten in exponent form", format!("{}e-1", tok), tok.ends_with('0') && tok != "0" && false)] {
+            let doc = format!("{}{}{}", &text[..a], spelled, &text[b..]);
+            if let Ok(v) = serde_json::from_str::<T>(&doc) {
+                if !same_value || ser(&v) != bytes {
+                    return Err(format!("from JSON: the integer {} {} (`{}`) is accepted and read as {} value", tok, what, spelled, if ser(&v) == bytes { "the same" } else { "a different" }));
+                }
+            }
+        }
+    }
     Ok(bytes)
+}
+
+/// byte ranges of the integer literals (`-?[0-9]+`, not followed by a fraction or exponent) of a JSON text, outside strings
+pub fn json_int_tokens(text: &str) -> Vec<(usize, usize)> {
+    let b = text.as_bytes();
+    let mut out = vec![];
+    let mut i = 0;
+    let mut in_str = false;
+    while i < b.len() {
+        let c = b[i];
+        if in_str {
+            if c == b'\\' { i += 2; continue; }
+            if c == b'"' { in_str = false; }
+            i += 1;
+        } else if c == b'"' {
+            in_str = true; i += 1;
+        } else if c == b'-' || c.is_ascii_digit() {
+            let start = i;
+            i += 1;
+            while i < b.len() && (b[i].is_ascii_digit() || b[i] == b'.' || b[i] == b'e' || b[i] == b'E' || b[i] == b'+' || b[i] == b'-') { i += 1; }
+            let tok = &text[start..i];
+            if tok.trim_start_matches('-').bytes().all(|x| x.is_ascii_digit()) && tok != "-" { out.push((start, i)); }
+        } else { i += 1; }
+    }
+    out
 }
